@@ -187,7 +187,7 @@ def execute(LRUCache, cap, prefill, threads_ops, prefix):
     first = sched._choose(None)
     sched.current = first
     sched.sems[first].release()
-    ok = sched.main_sem.acquire(timeout=20)
+    ok = sched.main_sem.acquire(timeout=8)
     if not ok and sched.error is None:
         sched.error = "timeout"
     if sched.error is None:
@@ -346,6 +346,7 @@ def explore(ctx, LRUCache):
     per_scenario = ctx.size(250, 2500)
     total = 0
     witnesses = []       # (cap, ops in linearization order, observed results)
+    errors = 0
     nscen = 0
     for cap, prefill, ths in scenarios(ctx):
         if total >= budget:
@@ -368,8 +369,15 @@ def explore(ctx, LRUCache):
                      key=("conc", cap, tuple(prefill), tuple(map(tuple, ths)), tuple(case["schedule"])) if sched.preempt_inside else None)
             ctx.count("conc_schedules")
             if sched.error:
+                # a deadlock / timeout costs the full wait: report it and stop exploring (the worker
+                # threads of this execution are abandoned as daemons)
                 ctx.reject(case, f"concurrent execution ended in {sched.error}", None)
-                continue
+                errors += 1
+                if errors >= 2:
+                    ctx.extra["concurrent"] = {"scenarios": nscen, "schedules": total, "preemption_bound": bound,
+                                               "aborted": "two executions ended in deadlock/timeout"}
+                    return
+                break
             sig = classify(cap, prefill, events, final_items)
             res = [[(e[2], e[3]) for e in evs] for evs in events]
             if sig is not None:
